@@ -120,8 +120,25 @@ TxSet(st, k, v) ==
     THEN [st EXCEPT !.tx = [i \in 1..Len(st.tx) |-> IF st.tx[i].k = lk THEN [k |-> lk, v |-> v] ELSE st.tx[i]]]
     ELSE [st EXCEPT !.tx = Append(st.tx, [k |-> lk, v |-> v])]
 
-VarName(col, key) ==   \* "ARGS:foo" or "ARGS" -- as bytes of the collection name are opaque, keep a record
-  [c |-> col, k |-> key]
+\* the bytes of a collection name (TLA+ strings are atoms, so this is a table)
+ColBytes(col) ==
+  CASE col = "ARGS"            -> <<65,82,71,83>>
+    [] col = "ARGS_GET"        -> <<65,82,71,83,95,71,69,84>>
+    [] col = "ARGS_POST"       -> <<65,82,71,83,95,80,79,83,84>>
+    [] col = "ARGS_NAMES"      -> <<65,82,71,83,95,78,65,77,69,83>>
+    [] col = "ARGS_GET_NAMES"  -> <<65,82,71,83,95,71,69,84,95,78,65,77,69,83>>
+    [] col = "ARGS_POST_NAMES" -> <<65,82,71,83,95,80,79,83,84,95,78,65,77,69,83>>
+    [] col = "REQUEST_HEADERS" -> <<82,69,81,85,69,83,84,95,72,69,65,68,69,82,83>>
+    [] col = "REQUEST_HEADERS_NAMES" -> <<82,69,81,85,69,83,84,95,72,69,65,68,69,82,83,95,78,65,77,69,83>>
+    [] col = "REQUEST_COOKIES" -> <<82,69,81,85,69,83,84,95,67,79,79,75,73,69,83>>
+    [] col = "REQUEST_COOKIES_NAMES" -> <<82,69,81,85,69,83,84,95,67,79,79,75,73,69,83,95,78,65,77,69,83>>
+    [] col = "RESPONSE_HEADERS" -> <<82,69,83,80,79,78,83,69,95,72,69,65,68,69,82,83>>
+    [] col = "TX"              -> <<84,88>>
+    [] col = "MATCHED_VAR"     -> <<77,65,84,67,72,69,68,95,86,65,82>>
+    [] col = "MATCHED_VARS"    -> <<77,65,84,67,72,69,68,95,86,65,82,83>>
+    [] OTHER                   -> << >>
+\* MATCHED_VAR_NAME: "ARGS:foo", or "ARGS" when the datum has no key
+VarName(col, key) == IF key = << >> THEN ColBytes(col) ELSE ColBytes(col) \o <<58>> \o key
 
 ExpandPart(st, p) ==
   CASE p.t = "lit" -> p.k
@@ -300,7 +317,7 @@ RunFlow(st, r, acts) ==
 (* run once per matched value.                                             *)
 (***************************************************************************)
 MatchVariable(st, d) ==
-  LET name == [c |-> d.var, k |-> d.key] IN
+  LET name == VarName(d.var, d.key) IN
   [st EXCEPT !.mvar = d.val, !.mvarName = name, !.mvars = Append(@, [n |-> name, v |-> d.val])]
 
 RECURSIVE EvalVals(_, _, _, _, _)
